@@ -130,7 +130,7 @@ def gen_cases(tier, seed):
                     vector=bool(rng.integers(2)),
                     # second-stage budget: a third of the total, or so small
                     # that it ends inside the episode running when b1 is hit
-                    b2=int(rng.choice([-1, 0])) if base == "ddpg"
+                    b2=int(rng.choice([-1, 0, 10 ** 6])) if base == "ddpg"
                     else int(rng.integers(1, 4)),
                     seed=int(rng.integers(1 << 20)), cost=9))
     for i in range(12 * reps):
@@ -540,7 +540,7 @@ def run_sched(case):
             return r
         if sched == "smt":
             b2 = case.get("b2", -1)
-            b1 = budget * 2 // 3 if b2 < 0 else budget - b2
+            b1 = budget * 2 // 3 if b2 < 0 else max(0, budget - b2)
             r, training_steps, _ = smt.train_smt(
                 task_set, train_st, buf, b1=b1, b2=budget - b1,
                 solved_threshold=1e9, unsolvable_threshold=-1e9,
